@@ -1174,6 +1174,116 @@ def check_model(ctx: Ctx, i, r: Rng, spec, verdict, lines: dict, n_cases: int):
     return b
 
 
+def built_from_model(spec, m) -> Built:
+    """a Built view of an EXISTING model object under the parameterisation `spec` (nothing is rebuilt or re-solved)"""
+    src, params = spec_source(spec)
+    b = Built()
+    b.spec, b.source, b.params = spec, src, params
+    b.steady = own_steady(spec)
+    b.steady_path = own_steady_path(spec, beta=spec.get("beta", 0.0))
+    b.m_all = None
+    b.m = m
+    b.name_to_qid = m.create_name_to_qid()
+    b.qid_to_name = m.create_qid_to_name()
+    b.vec = m._get_dynamic_solution_vectors()
+    b.sysvec = m._invariant.dynamic_descriptor.system_vectors
+    b.sol = m.get_solution()
+    b.system = m.systemize()
+    return b
+
+
+def gen_history(rng: Rng, spec):
+    """a history on ONE model object: simulations in deviations and in levels interleaved with re-parameterisation + re-solve and
+    with copies taken before / after.  Returns {"values": [parameter value lists], "ops": [...], "hseed": int} or None."""
+    if spec.get("growth") or spec.get("meas_lead") or spec.get("variants"):
+        return None
+    sp0 = json.loads(json.dumps(spec))
+    if not param_terms(sp0):
+        cands = [(i, k) for i, eq in enumerate(sp0["eqs"]) for k, t in enumerate(eq["terms"])
+                 if not (i == sp0.get("unit_var") and t[0] == i)]
+        if not cands:
+            return None
+        for (i, k) in rng.sample(cands, min(len(cands), 2)):
+            sp0["eqs"][i]["terms"][k][3] = True
+    base = [sp0["eqs"][i]["terms"][k][2] for (i, k) in param_terms(sp0)]
+    values = [base]
+    for w in range(1, rng.choice([2, 2, 3])):
+        for attempt in range(12):
+            r = rng.fork(f"hval{w}-{attempt}")
+            vals = [c * r.choice([0.5, 0.75, 1.25, 1.5, -0.5, -1.0, 0.25]) for c in base]
+            if vals in values:
+                continue
+            cand = with_param_values(sp0, vals)
+            if acceptable(cand, own_eigen_verdict(cand)):
+                values.append(vals)
+                break
+    if len(values) < 2:
+        return None
+    ops = [rng.choice(["dev", "lev", "dev"])]
+    for w in range(1, len(values)):
+        ops += rng.sample(["dev", "lev", "copy"], rng.randint(1, 3))
+        ops += ["reparam"]
+        ops += rng.sample(["dev", "lev", "copy", "dev"], rng.randint(2, 4))
+    ops += ["dev", "lev", "check-copies"]
+    return {"spec": sp0, "values": values, "ops": ops, "hseed": int(rng.next() % (1 << 31))}
+
+
+def run_history(ctx: Ctx, model_id, hist) -> bool:
+    """every step of the history is judged with the parameters in force for the object it runs on"""
+    sp0, values, ops = hist["spec"], hist["values"], hist["ops"]
+    hr = Rng(int(hist["hseed"]))
+    tag = {"model": model_id, "spec": sp0, "history": {"spec": sp0, "values": values, "ops": ops, "hseed": hist["hseed"]}}
+    cur = 0
+    spec_cur = with_param_values(sp0, values[0])
+    try:
+        b = build_model(spec_cur)
+    except Exception as e:
+        ctx.fail("solve-raises-on-determinate-model", tag, repr(e)[:300])
+        return False
+    m = b.m
+    copies = []          # (model copy, index of the parameterisation in force when it was taken)
+    ok = True
+    ctx.count("history")
+    ctx.count(f"history:reparameterisations={len(values) - 1}")
+    for step, op in enumerate(ops):
+        stag = dict(tag, step=step, op=op)
+        case = gen_sim_case(hr.fork(f"step{step}"), sp0)
+        ctx.count("history-op:" + op)
+        if op == "dev":
+            ok = oracle_equations(ctx, b, case, stag, deviation=True) and ok
+            ok = oracle_level_steady_deviation(ctx, b, case, stag) and ok
+        elif op == "lev":
+            ok = oracle_equations(ctx, b, case, stag, deviation=False) and ok
+        elif op == "copy":
+            try:
+                copies.append((m.copy(), cur))
+            except Exception as e:
+                ctx.fail("copy-raises", stag, repr(e)[:300]); return False
+        elif op == "reparam":
+            cur += 1
+            spec_cur = with_param_values(sp0, values[cur])
+            try:
+                m.assign(**spec_source(spec_cur)[1])
+                if not spec_cur["linear"]:
+                    m.assign(**steady_assignments(spec_cur, own_steady_path(spec_cur, beta=spec_cur.get("beta", 0.0))))
+                m.solve()
+                b = built_from_model(spec_cur, m)
+            except Exception as e:
+                ctx.fail("solve-raises-on-determinate-model", stag, repr(e)[:300]); return False
+        elif op == "check-copies":
+            # a copy follows the parameterisation in force when it was taken, whatever happened to the original afterwards
+            for k, (c, idx) in enumerate(copies):
+                bc = built_from_model(with_param_values(sp0, values[idx]), c)
+                ctag = dict(stag, copy=k)
+                ok = oracle_equations(ctx, bc, case, ctag, deviation=True) and ok
+                ok = oracle_equations(ctx, bc, case, ctag, deviation=False) and ok
+        if not ok:
+            break
+    if ok:
+        ctx.nontriv(("history", len(values), tuple(ops)[:6], sp0["linear"], max(spec_shift_ranges(sp0)[1]) > 0))
+    return ok
+
+
 def check_measurement_lead(ctx: Ctx, r: Rng, spec, tag):
     """a measurement equation with a lead of a transition variable: either the model is rejected, or the equation must hold
     with the lead read from the continuation like any other equation"""
@@ -1329,30 +1439,53 @@ def run(ctx: Ctx):
         b = check_model(ctx, i, r, spec, verdict, lines, n_cases)
         if b is not None and len(ctx.samples) < 3:
             ctx.sample({"source": b.source, "parameters": b.params, "shape": describe(spec)})
+    # histories on one model object (deviation / level simulations, re-parameterise + re-solve, copies)
+    n_hist = 0
+    for (i, r, spec, verdict) in models_for_run(ctx, ctx.n(45, 400), tag="hist"):
+        hist = gen_history(r.fork("history"), spec)
+        if hist is not None:
+            run_history(ctx, f"h{i}", hist)
+            n_hist += 1
+    ctx.extra["histories"] = n_hist
     flush_lines(ctx, lines)
     ex = exact_certificate_cases()
     ctx.compare("certificate-exact", [n for (n, _, _) in ex], [w for (_, _, w) in ex], ctx.model("C01", [l for (_, l, _) in ex]))
     ctx.extra["tolerances"] = {"certificate": TOL_CERT, "path": TOL_PATH, "oracle_residual": TOL_RES}
 
 
+def _new_failure(ctx: Ctx) -> bool:
+    return any(f["site"] != "measurement-equation-with-lead" for f in ctx.failures)
+
+
 def search(ctx: Ctx, seeds):
-    """failing-input search on the real code when a tie broke: the disagreeing models first, then the generator with a bigger budget (oracles only)"""
+    """failing-input search on the real code when a tie broke: the disagreeing models first (also as histories on one object),
+    then the generator with a bigger budget (oracles only).  Models with a lead in a measurement equation are left out."""
     lines = new_lines()
     for s in seeds:
-        if isinstance(s, dict) and "spec" in s:
+        if isinstance(s, dict) and "spec" in s and not s["spec"].get("meas_lead"):
             try:
                 spec = s["spec"]
+                if "history" in s:
+                    run_history(ctx, s.get("model", -1), s["history"])
                 verdict = own_eigen_verdict(spec)
                 b = check_model(ctx, s.get("model", -1), ctx.rng.fork("seed"), spec, verdict, lines, 4)
                 if b is not None and "case" in s and not s.get("override"):
                     oracle_equations(ctx, b, s["case"], {"model": s.get("model"), "spec": spec, "case": s["case"]})
+                hist = gen_history(ctx.rng.fork("seedhist"), spec)
+                if hist is not None:
+                    run_history(ctx, s.get("model", -1), hist)
             except Exception:
                 pass
-        if ctx.failures:
+        if _new_failure(ctx):
             return
     for (i, r, spec, verdict) in models_for_run(ctx, 150, tag="search"):
+        if spec.get("meas_lead"):
+            continue
         check_model(ctx, i, r, spec, verdict, new_lines(), 4)
-        if ctx.failures:
+        hist = gen_history(r.fork("history"), spec)
+        if hist is not None:
+            run_history(ctx, f"h{i}", hist)
+        if _new_failure(ctx):
             return
 
 
@@ -1365,6 +1498,10 @@ def replay(ctx: Ctx, payload):
         tag = {"model": case.get("model", 0), "spec": spec}
         if spec.get("meas_lead"):
             check_measurement_lead(ctx, ctx.rng.fork("replay"), spec, tag)
+            return
+        if "history" in case:
+            ctx.extra["programs"] = ctx.extra.get("programs", 0) + 1
+            run_history(ctx, case.get("model", 0), case["history"])
             return
         try:
             b = build_model(spec)
